@@ -151,15 +151,22 @@ func (w *World) verifyContract(con *Contract, opts *RunOpts) (res *FuncResult) {
 			// function itself (same arguments, parameter p replaced): for properties of
 			// call sequences on one receiver (add twice, look up after insert)
 			if ac, ok := con.option("after-call"); ok {
-				eq := strings.Index(ac, "=")
-				if eq < 0 {
-					panic(specPanic{con.Pos + ": option after-call param=shape"})
-				}
-				pn, shp := strings.TrimSpace(ac[:eq]), strings.TrimSpace(ac[eq+1:])
 				args0 := append([]Val{}, sc.Args...)
-				found := false
-				for k, p := range fn.Params {
-					if p.Name() == pn {
+				for _, one := range strings.Split(ac, ";") { // p=shape; q=shape
+					one = strings.TrimSpace(one)
+					if one == "" {
+						continue
+					}
+					eq := strings.Index(one, "=")
+					if eq < 0 {
+						panic(specPanic{con.Pos + ": option after-call param=shape[; param=shape]"})
+					}
+					pn, shp := strings.TrimSpace(one[:eq]), strings.TrimSpace(one[eq+1:])
+					found := false
+					for k, p := range fn.Params {
+						if p.Name() != pn {
+							continue
+						}
 						found = true
 						if len(shp) >= 2 && shp[0] == '"' {
 							sv, err := strconv.Unquote(shp)
@@ -176,9 +183,9 @@ func (w *World) verifyContract(con *Contract, opts *RunOpts) (res *FuncResult) {
 						v, _ := alts[0](st)
 						args0[k] = v
 					}
-				}
-				if !found {
-					panic(execPanic{"option after-call: no parameter " + pn})
+					if !found {
+						panic(execPanic{"option after-call: no parameter " + pn})
+					}
 				}
 				outs0 := e.run(st, fn, args0)
 				// several outcomes (a callee that may fail): the scenario continues after the
